@@ -31,15 +31,15 @@ CONTRACTS[(PATH, 'EngineLineCropper.reverse_line_mapping')] = Contract(
     ensures=['len(result) == len(sample_positions)',
              'forall(lambda k: implies(0 <= k and k < len(sample_positions), ' + SEG % {'k': 'k', 'r': 'result'} + '))'],
     ghost_at={
-        'd = forward_mapping[forward_position] - forward_mapping[forward_position - 1]': [
+        'd = forward_mapping[forward_position] - ': [
             'assert sample_positions[i] <= forward_mapping[forward_position] and (forward_position == 0 or forward_mapping[forward_position - 1] < sample_positions[i])',
             'assert implies(forward_position == 0, sample_positions[i] == forward_mapping[0] and d == forward_mapping[0] - forward_mapping[' + _n + ' - 1] and d < 0)',
             'assert implies(forward_position >= 1, d == forward_mapping[forward_position] - forward_mapping[forward_position - 1] and d > 0)'],
-        'da = (sample_positions[i] - forward_mapping[forward_position - 1]) / d': [
+        'da = (sample_positions[i] - ': [
             'assert implies(forward_position == 0, da * d == d)',
             'assert implies(forward_position == 0, da == 1)',
             'assert implies(forward_position >= 1, da == (sample_positions[i] - forward_mapping[forward_position - 1]) / (forward_mapping[forward_position] - forward_mapping[forward_position - 1]))'],
-        'backward_mapping[i] = (1 - da) * sampled_values[forward_position - 1] + da * sampled_values[forward_position]': [
+        'backward_mapping[i] = (1 - da) * sampled_values[': [
             'assert implies(forward_position == 0, backward_mapping[i] == sampled_values[0])',
             'assert implies(forward_position >= 1, backward_mapping[i] == (1 - (sample_positions[i] - forward_mapping[forward_position - 1]) / (forward_mapping[forward_position] - forward_mapping[forward_position - 1])) * sampled_values[forward_position - 1] '
             '+ ((sample_positions[i] - forward_mapping[forward_position - 1]) / (forward_mapping[forward_position] - forward_mapping[forward_position - 1])) * sampled_values[forward_position])',
